@@ -282,6 +282,8 @@ where
             let stopped = self
                 .wait_not_busy(Delay::new_write())
                 .and_then(|_| self.write_byte(STOP_TRAN_TOKEN))
+                // One byte may pass before the card signals busy: skip it.
+                .and_then(|_| self.read_byte().map(|_| ()))
                 // The card is now programming the last block. Wait for it here,
                 // with the write timeout: the next command would only wait for
                 // the (shorter) command timeout.
